@@ -157,6 +157,52 @@ fn mutants(prog: &Value) -> Vec<(String, Value)> {
             _ => {}
         }
     }
+    // scoping: a name bound by a loop pattern, inside a loop body or inside a block / branch is used right after that statement
+    fn bound_names(p: &Value, out: &mut Vec<(String, Value)>) {
+        match p["k"].as_str().unwrap_or("") {
+            "pid" => out.push((p["n"].as_str().unwrap_or("").to_string(), p["ty"].clone())),
+            "ptup" | "penum" => for q in p["ps"].as_array().unwrap() { bound_names(q, out); },
+            "pstruct" => for f in p["fs"].as_array().unwrap() { bound_names(&f["p"], out); },
+            _ => {}
+        }
+    }
+    fn lets_of(ss: &Value, out: &mut Vec<(String, Value)>) {
+        for st in ss.as_array().map(|a| a.as_slice()).unwrap_or(&[]) {
+            match st["k"].as_str().unwrap_or("") { "let" => bound_names(&st["p"], out), "letmut" => out.push((st["n"].as_str().unwrap_or("").to_string(), st["e"]["ty"].clone())), _ => {} }
+        }
+    }
+    for path in &paths {
+        let Some(P::I(i)) = path.last() else { continue };
+        if path.len() < 2 { continue; }
+        let parent = &path[..path.len() - 1];
+        if !matches!(parent.last(), Some(P::K(k)) if k == "body" || k == "ss") { continue; }
+        let n = get(prog, path);
+        let mut names: Vec<(String, Value)> = vec![];
+        match n["k"].as_str().unwrap_or("") {
+            "for" => { bound_names(&n["p"], &mut names); lets_of(&n["body"], &mut names); }
+            "forjoin" => { bound_names(&n["p"], &mut names); lets_of(&n["body"], &mut names); }
+            "expr" => match n["e"]["k"].as_str().unwrap_or("") {
+                "block" => lets_of(&n["e"]["ss"], &mut names),
+                "if" => { if n["e"]["t"]["k"] == "block" { lets_of(&n["e"]["t"]["ss"], &mut names); } if n["e"]["f"]["k"] == "block" { lets_of(&n["e"]["f"]["ss"], &mut names); } }
+                "match" => for a in n["e"]["arms"].as_array().unwrap() { bound_names(&a["p"], &mut names); },
+                _ => {}
+            },
+            _ => {}
+        }
+        names.dedup_by(|a, b| a.0 == b.0);
+        for (name, t) in names.into_iter().take(3) {
+            let z = json!([0, 0, 0, 0]);
+            let use_stmt = json!({"k":"let","p":{"k":"pid","n":"zz_s","ty":t,"m":z},"e":{"k":"var","n":name,"ty":t,"m":z},"m":z});
+            let mut m = prog.clone();
+            let arr = get(prog, parent).as_array().unwrap();
+            let mut a = arr.clone();
+            // the value of a block is its last statement: keep it last
+            let at = if *i + 1 == arr.len() && (parent.len() == 3 || parent.last().map(|k| matches!(k, P::K(s) if s == "ss")).unwrap_or(false)) { continue } else { *i + 1 };
+            a.insert(at, use_stmt);
+            set(&mut m, parent, Value::Array(a));
+            out.push(("out-of-scope-identifier".to_string(), m));
+        }
+    }
     // function-level rules
     if let Some(fns) = prog["fns"].as_object() {
         for (name, f) in fns {
@@ -171,6 +217,22 @@ fn mutants(prog: &Value) -> Vec<(String, Value)> {
             else { // a private fn that nobody calls: rename it so that the existing calls go to an unknown fn ... simpler: add an unused copy
                 let mut m = prog.clone(); let mut copy = f.clone(); copy["pub"] = json!(false); m["fns"]["zz_unused"] = copy; out.push(("unused-private-fn".into(), m));
             }
+        }
+        // a parameterless pub fn that is called from main, directly or through a private helper
+        if fns.contains_key("main") {
+            let z = [0, 0, 0, 0];
+            let tb = json!({"k":"bool"});
+            let zz_p = json!({"params":[],"ret":tb,"pub":true,"body":[{"k":"expr","e":{"k":"true","ty":tb,"m":z},"m":z}]});
+            let call_p = json!({"k":"call","f":"zz_p","args":[],"ty":tb,"m":z});
+            let let_of = |e: Value| json!({"k":"let","p":{"k":"pid","n":"zz_c","ty":tb,"m":z},"e":e,"m":z});
+            let mut m = prog.clone(); m["fns"]["zz_p"] = zz_p.clone();
+            let mut body = fns["main"]["body"].as_array().unwrap().clone(); body.insert(0, let_of(call_p.clone())); m["fns"]["main"]["body"] = Value::Array(body);
+            out.push(("called-pub-fn-without-params".into(), m));
+            let mut m = prog.clone(); m["fns"]["zz_p"] = zz_p;
+            m["fns"]["zz_h"] = json!({"params":[{"n":"a","t":tb,"mut":false}],"ret":tb,"pub":false,"body":[{"k":"expr","e":call_p,"m":z}]});
+            let call_h = json!({"k":"call","f":"zz_h","args":[{"k":"true","ty":tb,"m":z}],"ty":tb,"m":z});
+            let mut body = fns["main"]["body"].as_array().unwrap().clone(); body.insert(0, let_of(call_h)); m["fns"]["main"]["body"] = Value::Array(body);
+            out.push(("called-pub-fn-without-params".into(), m));
         }
         // mutual recursion between two helper functions f0 <-> f1 when both exist
         if fns.contains_key("f0") && fns.contains_key("f1") {
@@ -227,7 +289,9 @@ pub fn cmd_mutants(args: &[String]) {
         for (j, (rule, m)) in all.into_iter().enumerate() {
             let msrc = printer::program(&m);
             let mut diff = String::new();
-            let (accepted, panic, roundtrip) = match project(&msrc) {
+            let mut verdict = project(&msrc);
+            for _ in 0..2 { if verdict.is_ok() { break; } let again = project(&msrc); if again.is_ok() || again.as_ref().err().map(|e| e.starts_with("panic")).unwrap_or(false) { verdict = again; } }
+            let (accepted, panic, roundtrip) = match verdict {
                 Ok(back) => { let same = strip(&back) == strip(&m); if !same { diff = first_diff(&strip(&back), &strip(&m), String::new()).unwrap_or_default(); } (true, false, same) }
                 Err(e) if e.starts_with("panic") => (false, true, true),
                 Err(e) if e.starts_with("oom") => (true, false, false),
